@@ -196,7 +196,12 @@ def handleLine (codecs : List Codec) (funcs : List Func) (line : String) : Strin
       | some c => runHistory c opts body
       | none => "unknown-class"
     | "E" :: cls :: opts =>
-      match codecs.find? (·.name == cls) with
+      -- an operand line (`… ## @kind`) is answered by the codec that carries the class's `eqOp` (the container overlay
+      -- replaces some codecs by versions with another state type, which do not carry it)
+      let pick := if (body.splitOn "## @").length > 1 then
+          (codecs.find? (fun c => c.name == cls && c.eqOp.isSome)).orElse (fun _ => codecs.find? (·.name == cls))
+        else codecs.find? (·.name == cls)
+      match pick with
       | some c => runEq c opts body
       | none => "unknown-class"
     | _ => "bad-line"
